@@ -30,7 +30,7 @@ type c19Case struct {
 func init() {
 	engine.Register(&engine.Check{
 		ID: "C19", Level: "model_checking",
-		Rule: "decoder as a state machine: DFS over all line sequences of depth <=3 (quick) / <=4 (thorough) after each of 6 file openings (no A record, A first, noise then A, XOFF/BOM before A, ...), alphabet generated RELATIVE TO THE CURRENT STATE of a Go reference model of the record rules: H DTE {valid, short, non-digit, DATE: form, day/month edges, invalid day/month} and other H records, I records {contiguous LAD/LOD/TDS/other extension of width 1-3, two extensions, non-contiguous, stop<start, count larger than supplied, negative count, truncated, non-digit}, B records {valid at the current length, earlier time of day, one short, over-long, 60000 milli-minutes, 90/180 degrees, bad hemisphere, negative altitude}, blank and other records; after every sequence the real igc.Read result (fixes, headers, number and kind of errors) must equal the model's; plus every truncation and every single-column substitution (6 characters) of the B record in each of 6 extension states; the reader-split sweep; encoder round trip for every combination of 7 longitudes x 5 latitudes x 6 altitudes, 1..3 fixes with time deltas {0,1,59,86399,86400,86401 s, 28,31,365,366,730 days} from 12 boundary instants, and EVERY calendar day 1970-01-01..2069-12-31 (quick: every 7th day + boundaries) with fixes at 00:00:00, 23:59:59 and across midnight. states = distinct model states reached",
+		Rule:   "decoder as a state machine: DFS over all line sequences of depth <=3 (quick) / <=4 (thorough) after each of 6 file openings (no A record, A first, noise then A, XOFF/BOM before A, ...), alphabet generated RELATIVE TO THE CURRENT STATE of a Go reference model of the record rules: H DTE {valid, short, non-digit, DATE: form, day/month edges, invalid day/month} and other H records, I records {contiguous LAD/LOD/TDS/other extension of width 1-3, two extensions, non-contiguous, stop<start, count larger than supplied, negative count, truncated, non-digit}, B records {valid at the current length, earlier time of day, one short, over-long, 60000 milli-minutes, 90/180 degrees, bad hemisphere, negative altitude}, blank and other records; after every sequence the real igc.Read result (fixes, headers, number and kind of errors) must equal the model's; plus every truncation and every single-column substitution (6 characters) of the B record in each of 6 extension states; the reader-split sweep; encoder round trip for every combination of 7 longitudes x 5 latitudes x 6 altitudes, 1..3 fixes with time deltas {0,1,59,86399,86400,86401 s, 28,31,365,366,730 days} from 12 boundary instants, and EVERY calendar day 1970-01-01..2069-12-31 (quick: every 7th day + boundaries) with fixes at 00:00:00, 23:59:59 and across midnight. states = distinct model states reached",
 		Run:    c19Run,
 		Replay: func(c *engine.Ctx, kind string, raw json.RawMessage) { c19Exec(c, decodeCase[c19Case](raw), nil) },
 		Assumptions: []string{
@@ -392,6 +392,33 @@ func c19Run(c *engine.Ctx) {
 			}
 		}
 		tracks = append(tracks, kept)
+	}
+	// coordinate lattice: every whole degree of latitude and longitude, each approached from both
+	// sides at distances around the resolution 1/60000 degree and its half (where truncation,
+	// rounding and carries between the degree and minute fields differ), both hemispheres
+	epss := []float64{0, 1.0 / 120001, 1.0 / 119999, 1.0 / 60001, 1.0 / 59999, 1e-7, 1e-9, 3.0 / 120000, 0.5, 59.9995 / 60, 59.99949 / 60}
+	u0 := float64(time.Date(2001, 9, 9, 1, 46, 40, 0, time.UTC).Unix())
+	for deg := 0; deg <= 180; deg++ {
+		var tr [][]ref.F
+		for _, e := range epss {
+			for _, sgn := range []float64{1, -1} {
+				for _, side := range []float64{1, -1} {
+					lon := sgn * (float64(deg) + side*e)
+					lat := lon
+					if math.Abs(lon) > 180 {
+						continue
+					}
+					if math.Abs(lat) > 90 {
+						lat = sgn * (float64(deg%91) + side*e)
+						if math.Abs(lat) > 90 {
+							lat = sgn * 45
+						}
+					}
+					tr = append(tr, []ref.F{ref.F(lon), ref.F(lat), 500, ref.F(u0 + float64(len(tr)))})
+				}
+			}
+		}
+		tracks = append(tracks, tr)
 	}
 	c.Note("tracks", len(tracks))
 	c.Parallel(len(tracks), func(i int) { c19Exec(c, c19Case{Mode: "track", Track: tracks[i]}, nil) })
